@@ -146,8 +146,54 @@ def gen_stmt(rng, odd):
     return ir.Assignment(target, value)
 
 
+COMMENTS = [None, None, "comment", "i loop", "a = b + c; // x", "if (x) {"]
+
+
+def gen_struct(rng, depth, odd=False):
+    """Statement trees with layout: blocks in blocks, empty blocks, comments, else-if chains, else blocks
+    that hold a single Branch, loops in loops."""
+    from tensora.ir import ast as ir
+
+    k = rng.random()
+    if depth <= 0 or k < 0.3:
+        return gen_stmt(rng, odd)
+    sub = lambda: gen_struct(rng, depth - 1, odd)  # noqa: E731
+    cond = lambda: gen_expr(rng, rng.choice([0, 1, 2]), odd)  # noqa: E731
+    if k < 0.55:
+        n = rng.choice([0, 0, 1, 2, 3])
+        return ir.Block([sub() for _ in range(n)], rng.choice(COMMENTS))
+    if k < 0.85:
+        e = rng.random()
+        if e < 0.25:
+            f = ir.Block([])
+        elif e < 0.45:
+            f = ir.Branch(cond(), sub(), rng.choice([ir.Block([]), sub()]))
+        elif e < 0.55:
+            f = ir.Block([ir.Branch(cond(), sub(), ir.Block([]))])
+        elif e < 0.65:
+            f = ir.Block([], "only a comment")
+        else:
+            f = sub()
+        return ir.Branch(cond(), sub(), f)
+    return ir.Loop(cond(), sub())
+
+
+def gen_function(rng, odd=False):
+    from tensora.ir import ast as ir
+
+    params = []
+    for _ in range(rng.choice([0, 1, 2, 3])):
+        name = ir.Variable(rng.choice(NAMES + (["a b"] if odd else [])))
+        if odd and rng.random() < 0.1:
+            name = ir.IntegerLiteral(3)
+        params.append(ir.Declaration(name, gen_type(rng, 2)))
+    body = gen_struct(rng, rng.choice([1, 2, 3]), odd)
+    return ir.FunctionDefinition(ir.Variable(rng.choice(["compute", "evaluate", "assemble", "f_1"])), params,
+                                 gen_type(rng, 1), body)
+
+
 def t_cprint(rng, n):
-    from tensora.codegen._ir_to_c import ir_to_c_expression, ir_to_c_statement
+    from tensora.codegen._ir_to_c import ir_to_c, ir_to_c_expression, ir_to_c_function_definition, ir_to_c_statement
     from tensora.codegen._type_to_c import type_to_c
     from tensora.ir import ast as ir
 
@@ -175,6 +221,46 @@ def t_cprint(rng, n):
         k += 1
         odd = k % 4 == 0
         kind = k % 10
+        if k % 5 == 3:
+            which = (k // 5) % 4
+            if which < 2:
+                st = gen_struct(rng, rng.choice([1, 2, 3, 4]), odd)
+                t = dump(st, "stmt")
+                try:
+                    lines = ir_to_c_statement(st)
+                    exp = f"(Some {clist(cstr(x) for x in lines)})"
+                    text = "\n".join(lines)
+                except AttributeError:
+                    exp, text = "None", None
+                add(f"option_eqb (list_eqb String.eqb) (ir_to_c_statement sf {t}) {exp}", f"ir_to_c_statement (layout): {text}")
+                if text is not None and len(cases) < n:
+                    add(f"(if deep_names_ok {t} then slex_is {cstr(text)} (cprint_stmts {t}) && parse_back {t} else true)",
+                        f"slex / sparse vs cprint_stmts: {text}")
+            elif which == 2:
+                fn = gen_function(rng, odd)
+                t = dump(fn, "function_definition")
+                try:
+                    text = ir_to_c_function_definition(fn)
+                    exp = f"(Some {cstr(text)})"
+                except AttributeError:
+                    exp, text = "None", None
+                add(f"option_eqb String.eqb (ir_to_c_function_definition sf {t}) {exp}", f"ir_to_c_function_definition: {text}")
+                if text is not None and len(cases) < n:
+                    add(f"(if function_names_ok {t} then slex_is {cstr(text)} (cprint_function {t}) else true)",
+                        f"slex vs cprint_function: {text}")
+            else:
+                m = ir.Module([gen_function(rng, odd) for _ in range(rng.choice([0, 1, 2, 3]))])
+                t = dump(m, "module")
+                try:
+                    text = ir_to_c(m)
+                    exp = f"(Some {cstr(text)})"
+                except AttributeError:
+                    exp, text = "None", None
+                add(f"option_eqb String.eqb (ir_to_c sf {t}) {exp}", f"ir_to_c: {text}")
+                if text is not None and len(cases) < n:
+                    add(f"(if module_names_ok {t} then slex_is {cstr(text)} (cprint_module {t}) else true)",
+                        f"slex vs cprint_module: {text}")
+            continue
         if kind < 6:
             e = gen_shaped(rng) if (k // 10) % 3 != 0 and not odd else gen_expr(rng, rng.choice([0, 1, 2, 3, 4]), odd)
             text = ir_to_c_expression(e)
@@ -204,7 +290,7 @@ def t_cprint(rng, n):
     pool = FLOATS + [abs(v) for v in FLOATS if abs(v) not in FLOATS]
     table = clist(f"({cfl(v)}, {cstr(str(v))})" for v in pool)
     text = HEAD + ("From Flocq Require Import Core BinarySingleNaN.\n"
-                   "From TV Require Import gen.IRAst spec.CGrammar model.CPrint model.CLexer gen.IrToC.\n")
+                   "From TV Require Import gen.IRAst spec.CGrammar model.CPrint model.CLexer model.CStruct gen.IrToC.\n")
     text += f"Definition float_table : list (F * string) := {table}.\n"
     text += ("Definition sf (f : F) : string :=\n"
              "  match find (fun p => F_same (fst p) f) float_table with Some p => snd p | None => \"?\" end.\n"
@@ -214,6 +300,16 @@ def t_cprint(rng, n):
              "  match a, b with [], [] => true | x :: a', y :: b' => ctoken_eqb x y && toks_eqb a' b' | _, _ => false end.\n"
              "Definition lex_is (s : string) (ts : list ctoken) : bool :=\n"
              "  match clex fd s with Some r => toks_eqb r ts | None => false end.\n")
+    text += ("Definition stok_eqb (a b : stok) : bool :=\n"
+             "  match a, b with SK x, SK y => ctoken_eqb x y | SLBrace, SLBrace | SRBrace, SRBrace | SIf, SIf\n"
+             "  | SElse, SElse | SWhile, SWhile => true | _, _ => false end.\n"
+             "Definition slex_is (s : string) (o : option (list stok)) : bool :=\n"
+             "  match slex fd s, o with Some a, Some b => list_eqb stok_eqb a b | _, _ => false end.\n"
+             "Definition parse_back (s : stmt) : bool :=\n"
+             "  match cprint_stmts s with\n"
+             "  | Some ts => match sparse ts, skel s with Some a, Some b => list_eqb stok_eqb (flats a) (flats b) && wfs a | _, _ => false end\n"
+             "  | None => false end.\n"
+             "Definition module_names_ok (m : module) : bool := match m with IRModule fs => forallb function_names_ok fs end.\n")
     text += "Definition results : list bool :=\n " + clist(cases) + ".\n"
     text += "Eval vm_compute in (failing results).\n"
     return {"coq": text, "n": len(cases), "descr": descr}
